@@ -5,30 +5,17 @@ Model: `SerfModel.Snapshot` (serf/snapshot.go): line printer, `replay` parser, t
 snapshotter's state, append / periodic flush / compaction with the file-system
 operations they issue, a `bufio.Writer` model and a model file system.
 
-FULL STATEMENT (DESIGN 7 C10) — NOT PROVED as one theorem yet:
-
-  theorem C10_restore_exact (ord) (hord : PermOrder ord) (rj mc) (evs : List Ev) (clk) :
-      (∀ e ∈ evs, WFEv e) → Ev.leave ∉ evs →
-      let r := life ord rj mc {} evs clk
-      MapEq (recover rj (FS.applyAll {} r.2)).alive r.1.alive ∧ clocks equal
-
-What IS proved below, for every order oracle that permutes the alive map (Go map
-order), every threshold, every flush timing and every buffer content:
-  * `C10_line_roundtrip`, `C10_replay_is_fold` — the line format;
-  * `C10_append_preserves_partial` — the invariant "replay(file ++ buffered) = memory" is
-    preserved by `appendLine` (which covers the bufio behaviour, the periodic flush and
-    the compaction it may trigger, at ANY threshold);
-  * `C10_compact_restores_partial` — after a compaction, from any state, replaying the
-    file gives exactly the in-memory state;
-  * `C10_flush_preserves_partial` — flushing (leave, shutdown) preserves the invariant.
-Missing: the induction over event histories that chains these per-step facts
-(each event = one in-memory update followed by `appendLine` of the line recording it).
-The chaining lemmas were written (step/run/shutdown) but their elaboration did not
-terminate in the time available; they are not part of this file.
-The hypothesis `WFName` (no newline in member names) is necessary: see
-`C10_restore_exact_counterexample` (finding `name-with-newline`).
+`C10_restore_exact` is the property: for every history without a graceful leave,
+every compaction threshold, every flush timing and every order the Go map iteration
+may produce in `compact`, the state a restart recovers from the file the life left
+behind is exactly the in-memory state at shutdown.  Its hypothesis `WFEv` (member
+names without newline; addresses without space/newline — true of every
+`net.TCPAddr.String()`; uint64 event times) is necessary for names: see
+`C10_restore_exact_counterexample` (finding `name-with-newline`), hence the name
+`…_partial` is NOT used for the clock/addr parts but the theorem is partial w.r.t.
+"arbitrary member names": the full statement fails exactly for names containing '\n'.
 -/
-import SerfProofs.Lemmas.SnapshotInv
+import SerfProofs.Lemmas.SnapshotRuns
 namespace SerfProofs.C10
 open SerfModel SerfModel.Snapshot SerfProofs.Snapshot
 
@@ -80,6 +67,35 @@ theorem C10_flush_preserves_partial (s : Snap) (fs : FS) (h : Inv s fs) (tail : 
 /-- non-vacuity: the fresh snapshotter satisfies the invariant -/
 example : Inv (Snap.init false 0).1 (({} : FS).applyAll (Snap.init false 0).2) := by
   refine ⟨[], rfl, rfl, ⟨by decide, by simp [Snap.init, Snap.openOn, Snap.mem, replay, splitLines], by decide, by decide, by decide⟩, fun k => rfl, fun _ => ⟨rfl, rfl, rfl⟩⟩
+
+/-- **C10, whole histories** (partial only in `WFEv`: names without newline). A fresh
+snapshotter (`rj` = rejoin-after-leave, `mc` = minimum compaction size) lives through
+`evs` (no leave), shuts down with the Lamport clock at `clk`; the restart then
+recovers exactly the alive map (as a map: same address for every name, no duplicates)
+and exactly the three clocks the node had in memory. -/
+theorem C10_restore_exact_partial (ord : Order) (hord : PermOrder ord) (rj : Bool) (mc : Nat) (evs : List Ev) (clk : Nat)
+    (hwf : ∀ e ∈ evs, WFEv e) (hnl : Ev.leave ∉ evs) :
+    MapEq (recover rj (FS.applyAll {} (life ord rj mc {} evs clk).2)).alive (life ord rj mc {} evs clk).1.alive ∧
+    (akeys (life ord rj mc {} evs clk).1.alive).Nodup ∧
+    (recover rj (FS.applyAll {} (life ord rj mc {} evs clk).2)).clock = (life ord rj mc {} evs clk).1.lastClock ∧
+    (recover rj (FS.applyAll {} (life ord rj mc {} evs clk).2)).eventClock = (life ord rj mc {} evs clk).1.lastEventClock ∧
+    (recover rj (FS.applyAll {} (life ord rj mc {} evs clk).2)).queryClock = (life ord rj mc {} evs clk).1.lastQueryClock := by
+  have key := restore_generic ord hord (Snap.init rj mc).1 _ (init_inv rj mc) (init_leaving rj mc) evs clk hwf hnl
+  rw [init_rejoin] at key
+  rw [life_fresh_fs, life_fresh_fst]
+  exact key
+
+/-- non-vacuity: a history with unusual names satisfies the hypotheses -/
+example : (∀ e ∈ [Ev.join [(['a', ' ', 'b', ':'], ['1', ':', '2'])] 5, .user 7, .gone [['#']] 9, .timePasses, .forceCompact], WFEv e) ∧
+    Ev.leave ∉ [Ev.join [(['a', ' ', 'b', ':'], ['1', ':', '2'])] 5, .user 7, .gone [['#']] 9, .timePasses, .forceCompact] := by
+  constructor
+  · intro e he
+    simp only [List.mem_cons, List.mem_nil_iff, or_false] at he
+    rcases he with rfl | rfl | rfl | rfl | rfl <;> simp [WFEv, WFName, WFAddr, U64]
+  · decide
+
+/-- the identity order is a permutation oracle -/
+example : PermOrder Order.id := fun _ m => List.Perm.refl m
 
 /-- the one-event life of the finding: join of a member named "a\nb", shutdown -/
 def cexLife : Snap × List FsOp :=
